@@ -11,7 +11,10 @@ WRITERS = {
     "registry": {("rink_core", "loader::load::load_defs"), ("rink_core", "loader::context::Context::load_dates")},
     "temporaries": {("rink_core", "loader::load::load_defs"), ("rink_core", "loader::load::load_defs::{closure#1}")},
     "now": {("rink_core", "loader::context::Context::set_time"), ("rink_core", "loader::context::Context::update_time")},
-    "previous_result": {("rink_core", "helpers::eval"), ("rink_js", "Context::eval"), ("rink_js", "Context::eval_tokens")},
+    "previous_result": {("rink_core", "helpers::eval"), ("rink_js", "Context::eval"), ("rink_js", "Context::eval_tokens"),
+                        # not an updater: the sandboxed service restores the copy of `ans` that the parent process keeps for it (the child
+                        # may be a new process); the three `restore:` obligations of store_guards apply to it
+                        ("rink", "<service::RinkService as rink_sandbox::Service>::handle")},
     "save_previous_result": {("rink", "config::load"), ("rink_irc", "config::load"), ("rink_js", "Context::set_save_previous_result")},
     "use_humanize": {("rink_js", "Context::new"), ("rink", "fmt::tests::test_to_ansi")},
 }
@@ -140,6 +143,63 @@ def who_may_write(chk, F, G):
                    "Registry.%s is written outside the loader" % f)
 
 
+def session_restore(chk, F, fn, bb, j, fk, where):
+    """The sandboxed CLI evaluates in a child process that is replaced after a fault; `ans` is the one piece of state that
+    outlives a query, so the parent keeps a copy and sends it with every request.  This write is that restore, not an update:
+    `ans` stays "the most recent successful numeric result of a plain expression" provided (1) what is written comes from the
+    request and nothing else, (2) the reply carries the child's previous_result as it is after the evaluation (which only
+    helpers::eval may have changed), and (3) the parent stores exactly what came back in a reply - a fault, which has no
+    reply, leaves its copy alone - and sends exactly that."""
+    st = fn.blocks[bb]["stmts"][j]
+    src = ap_str(fn.apath(st["rv"]["a"])) if st["rv"]["k"] == "use" else str(st["rv"])[:80]
+    chk.decide("arg2" in src and "Ans::number" in src and "eval" not in src.replace("Ans::number", ""), "ans-store-guards", fk, "restore:from-the-request", where,
+               "previous_result is set to the `ans` that came with the request (%s)" % src[:120],
+               "the service writes previous_result from %s, not from the request's copy of ans" % src[:160])
+    # it precedes the evaluation
+    ev = [b2 for b2, t in fn.calls() if "callee" in t and t["callee"]["path"].endswith("helpers::eval")]
+    chk.decide(bool(ev) and all(fn.dominates(bb, e) for e in ev), "ans-store-guards", fk, "restore:before-the-evaluation", where,
+               "the restore happens before the query is evaluated", "previous_result is overwritten after the evaluation: the query's own result is lost")
+    rets = []
+    for i, jj, st2 in fn.stmts():
+        rv = st2.get("rv", {})
+        if st2["k"] == "assign" and st2["place"]["l"] == 0 and not st2["place"]["p"] and rv.get("k") == "agg":
+            rets.append([ap_str(fn.apath(o)) for o in rv.get("ops", [])])
+    okr = bool(rets) and all(len(r) == 2 and ".previous_result" in r[1] and "Ans::new" in r[1] for r in rets)
+    chk.decide(okr, "ans-store-guards", fk, "restore:reply-carries-the-child's-ans", where,
+               "the reply carries the child's previous_result as it is after the evaluation",
+               "the reply does not carry Context.previous_result back to the parent: %s" % rets)
+    # parent side (cli::repl, an async fn: its locals live in the coroutine state): the request carries a clone of one state
+    # field of type Option<Ans>, and that field is only ever assigned None (at the start) or the `.result.1` of an Ok reply
+    par = [f for f in F.by_crate["rink"] if f.path.startswith("repl::interactive_sandboxed")]
+    found = False
+    for f in par:
+        for b2, t in f.calls():
+            if "callee" in t and t["callee"]["path"].endswith("Sandbox::<S>::execute") and len(t["args"]) >= 2:
+                found = True
+                sent = f.apath(t["args"][1])
+                comp = sent[0][2][1] if sent[0][0] == "agg" and len(sent[0][2]) == 2 else None
+                field = None
+                if comp is not None and comp[0][0] == "call" and comp[0][1].endswith("Clone>::clone") and not comp[1]:
+                    field = ap_str(comp[0][2][0])
+                srcs = []
+                for i, jj, st2 in f.stmts():
+                    pl = st2.get("place") or {}
+                    if st2["k"] == "assign" and pl.get("p") and "Option<service::Ans>" in str(pl.get("ty", "")):
+                        rv = st2["rv"]
+                        if rv.get("k") == "agg":
+                            srcs.append("None" if str(rv.get("variant")) == "None" else "agg:" + str(rv.get("variant")))
+                        elif rv.get("k") == "use":
+                            srcs.append(ap_str(f.apath(rv["a"])))
+                        else:
+                            srcs.append(rv.get("k"))
+                good = field is not None and bool(srcs) and all(x == "None" or (x.endswith("as Ok.0.result.1") and "execute" in x) for x in srcs)
+                chk.decide(good, "ans-store-guards", "rink::" + f.path, "restore:parent-keeps-what-the-child-returned", f.where(b2),
+                           "the request carries a clone of the parent's copy (%s), which is only assigned None or the ans of an Ok reply" % field,
+                           "the parent's copy of ans is assigned from %s (sent: %s): it must be None or the `.result.1` of an Ok reply, and be what is sent" % (srcs, ap_str(sent)[-120:]))
+    if not found:
+        raise AnchorLost("cli::repl: the sandboxed loop's execute() call was not found")
+
+
 def store_guards(chk, F):
     """(c): every store to previous_result has the four necessary guards and stores the reply's raw value."""
     table = {}
@@ -152,6 +212,9 @@ def store_guards(chk, F):
         guards = [fn.guard_desc(g) for g in fn.guards_of(bb)]
         fk = "%s::%s" % (fn.crate, fn.path)
         where = fn.where(bb, j)
+        if fn.crate == "rink" and fn.path == "<service::RinkService as rink_sandbox::Service>::handle":
+            session_restore(chk, F, fn, bb, j, fk, where)
+            continue
         gtxt = "; ".join("%s %s %s" % (g[0], ap_str(g[1])[-70:], g[2:]) for g in guards)
 
         def has(pred):
